@@ -594,7 +594,7 @@ PROPS["C12"] = dict(
          "valid()/empty(), reference_count() of every referenced object == number of handles pointing at it, and live "
          "objects == referenced objects (destroyed exactly when the last handle lets go; never with the no-delete "
          "deleter; deleter calls == destructions). mode=serial/jitter: a case = 60 concurrent histories of 2-3 threads x "
-         "1-2 shared objects: copy, drop, move chains, publish/adopt/clear a handle in a mutex-protected mailbox, swap, "
+         "1-2 shared objects: copy, drop, move chains, publish/adopt/clear a handle in a mutex-protected mailbox, swap, unify() (clone when shared), "
          "while the creator drops its handles; each object must die exactly once after the last handle of any thread is "
          "gone (controlled schedules with every reference-count operation as a scheduling point; TSan/ASan with "
          "jitter). Classes: deleter (seq), threads x objects (concurrent).",
